@@ -70,3 +70,6 @@ Example C17_str_examples :
   forallb (fun z => match show_f64 (of_bits z) with Some _ => true | None => false end) [1; 2; 4503599627370495; 4503599627370496; 9218868437227405311; 9218868437227405312; 4602678819172646912; 4613937818241073152; 4841369599423283200; 13835058055282163712; 4503599627370497; 4607182418800017407] = true.
 Proof. vm_compute. repeat split; reflexivity. Qed.
 Print Assumptions C17_float_str_roundtrip.
+(* str of the whole numbers -1000 .. 999 is their decimal numeral (finite sweep, bound in the statement: small_integers lists exactly these 2000 values) *)
+Theorem C17_str_of_small_integers : length small_integers = 2000%nat /\ hd 0%Z small_integers = (-1000)%Z /\ last small_integers 0%Z = 999%Z /\ forallb shows_numeral small_integers = true.
+Proof. destruct small_integers_shown as [L F]. split; [exact L | split; [vm_compute; reflexivity | split; [vm_compute; reflexivity | exact F]]]. Qed.
